@@ -846,6 +846,38 @@ func (c *Ctx) c19Probes() {
 	}
 }
 
+// c19CallFollowsName: Call looks the name up every time: after the script (or a native through its own VM) stores
+// another function under a name, the next Call of that name runs the new function
+func (c *Ctx) c19CallFollowsName() {
+	vm := goat.New()
+	vm.Set("main.rebind", goat.NewFunc(1, 0, func(vm *goat.VM, args []goat.Value) { vm.Set("main.handler", args[0]) }))
+	if _, err := vm.Eval(fstest.MapFS{}, "main", "func menuUpdate(x int) int { return 100 + x }\nfunc playUpdate(x int) int { return 200 + x }\nfunc third(x int) int { return 300 + x }\nvar update = menuUpdate\nvar handler = menuUpdate\nfunc start() { update = playUpdate }\nfunc viaNative() { rebind(third) }\n"); err != nil {
+		c.Rep.Violate(Violation{Kind: "oracle", Cut: "call-follows-name", Input: "declarations", Impl: err.Error(), Oracle: "evaluates"})
+		return
+	}
+	var got []string
+	call := func(name string) {
+		r, err := vm.Call("main."+name, 1, goat.Int(2))
+		got = append(got, c19Show(r, err))
+	}
+	call("update")
+	call("handler")
+	vm.Call("main.start", 0)
+	call("update")
+	vm.Eval(fstest.MapFS{}, "main", "update = third")
+	call("update")
+	vm.Call("main.viaNative", 0)
+	call("handler")
+	vm.Set("main.update", vm.Get("main.menuUpdate"))
+	call("update")
+	vm.Eval(fstest.MapFS{}, "main", "func menuUpdate(x int) int { return 900 + x }")
+	call("update")
+	c.Rep.Oracle["call-follows-name"]++
+	if g, want := strings.Join(got, " | "), "ok 102 | ok 102 | ok 202 | ok 302 | ok 302 | ok 102 | ok 902"; g != want {
+		c.Rep.Violate(Violation{Kind: "oracle", Cut: "call-follows-name", Input: "Call(update), Call(handler), start() rebinding update, Call(update), Eval update = third, Call(update), a native rebinding handler, Call(handler), Set(update, menuUpdate), Call(update), menuUpdate declared again, Call(update)", Impl: g, Oracle: want})
+	}
+}
+
 // c19ValueFormWithArgs: a native of the form func(vm) Value cannot read arguments, but registered with an arity it
 // still delivers its result (not the first argument; fix b462b86), and a wrong argument count is an error
 func (c *Ctx) c19ValueFormWithArgs() {
@@ -1029,6 +1061,7 @@ func runC19(c *Ctx) error {
 	c.c19TailAfterLiteral()
 	c.c19ResultsKept()
 	c.c19Probes()
+	c.c19CallFollowsName()
 	c.c19RoundTrips(nr)
 	return nil
 }
